@@ -70,9 +70,15 @@ def proj_base(cx, a, n):
     return (a * nb + n) * nx
 
 
+def _size_case(nx_, nb_):
+    return lambda cx: [cx.f(PS_NX) == nx_, cx.f(PS_NY) == nx_, cx.f(PS_NB) == nb_]
+
+
 class PSMethod(Contract):
     tu = 'src/PS/PhaseSpace.cpp'
     params = []
+    # concrete sizes for the bounded re-check (used only after a loop obligation failed)
+    bounded_cases = [_size_case(2, 1), _size_case(3, 2), _size_case(2, 3)]
 
     def requires(self, cx):
         return [('valid', PS_valid(cx))]
@@ -196,6 +202,11 @@ class UpdateYProjection(PSMethod):
         return [('proj', {'C09', 'C10'}, Implies(And(n >= 0, n < nb, y >= 0, y < ny), cx.sel('this._projection', (nb + n) * nx + y) == self.value(cx, n, y))),
                 ('xproj_unchanged', {'C12', 'C09'}, Implies(And(k >= 0, k < nb * nx), cx.sel('this._projection', k) == cx.old.sel('this._projection', k))),
                 ('frame', {'C12'}, self.unchanged(cx, '_data', '_ws', '_filling'))]
+
+    def bounded_defs(self, cx, K):
+        nx, ny, nb = ps_globals(cx)
+        n, y = cx.g('n'), cx.g('y')
+        return [models.unfold_sumstride(cx.old.arr('this._data'), n * nx * ny + y, ny, cx.old.arr('this._ws'), I(k)) for k in range(K + 1)]
 
     def _common(self, cx):
         nx, ny, nb = ps_globals(cx)
@@ -405,6 +416,12 @@ class Average(PSMethod):
         return [('mean', {'C09', 'C10', 'C04'}, Implies(And(n >= 0, n < nb), cx.sel('this._moment', (a * 4) * nb + n) == self.mean(cx, n))),
                 ('frame', {'C12'}, self.unchanged(cx, '_data', '_ws', '_projection', '_filling', '_filling_set'))]
 
+    def bounded_defs(self, cx, K):
+        nx, ny, nb = ps_globals(cx)
+        n, a = cx.g('n'), cx.a('axis')
+        ax = f'this._axis[{self.case_axis(cx)}]'
+        return [models.unfold_sumprod(cx.old.arr('this._projection'), (a * nb + n) * nx, cx.arr(ax + '._data'), I(0), I(k)) for k in range(K + 1)]
+
     def _inv_n(self, cx):
         nx, ny, nb = ps_globals(cx)
         n, gn, a = cx.v('n'), cx.g('n'), cx.a('axis')
@@ -470,6 +487,14 @@ class Variance(PSMethod):
                 ('variance', {'C09', 'C10', 'C04'}, Implies(inr, cx.sel('this._moment', (a * 4 + 1) * nb + n) == self.var(cx, n))),
                 ('rms', {'C09', 'C10', 'C04'}, Implies(inr, cx.sel('this._rms', a * nb + n) == models.uf('sqrt')(cx.sel('this._moment', (a * 4 + 1) * nb + n)))),
                 ('frame', {'C12'}, self.unchanged(cx, '_data', '_ws', '_projection', '_filling', '_filling_set'))]
+
+    def bounded_defs(self, cx, K):
+        nx, ny, nb = ps_globals(cx)
+        n, a = cx.g('n'), cx.a('axis')
+        ax = f'this._axis[{Average.case_axis(cx)}]'
+        m = cx.sel('this._moment', (a * 4) * nb + n)
+        return [models.unfold_sumvar(cx.old.arr('this._projection'), (a * nb + n) * nx, cx.arr(ax + '._data'), I(0), m, I(k)) for k in range(K + 1)] + \
+               [models.unfold_sumprod(cx.old.arr('this._projection'), (a * nb + n) * nx, cx.arr(ax + '._data'), I(0), I(k)) for k in range(K + 1)]
 
     def _inv_n(self, cx):
         nx, ny, nb = ps_globals(cx)
